@@ -7,7 +7,7 @@
    stored packets have 1 <= len <= BufSize, result buffers are empty or
    >= BufSize. *)
 From Coq Require Import ZArith List Bool.
-From Galene Require Import Lib.Word.
+From Galene Require Import Lib.Word Lib.Ring.
 Import ListNotations.
 Open Scope Z_scope.
 
@@ -93,12 +93,6 @@ Definition bm_get (b : bitmap) (next : Z) : (bool * Z * Z) * bitmap :=
         else let c := trailing_zeros 32 bm in (bm / 2 ^ c, w16 (first + c)) in
       ((true, first1, w16 (bm1 / 2)), b').
 
-Fixpoint set_nth {A} (n : nat) (x : A) (l : list A) : list A :=
-  match l, n with
-  | [], _ => []
-  | _ :: t, O => x :: t
-  | h :: t, S n' => h :: set_nth n' x t
-  end.
 
 Definition zlen {A} (l : list A) : Z := Z.of_nat (length l).
 
